@@ -391,8 +391,12 @@ class Item:
             raise ExtractError('%s: rewrite rule applied after a splice' % self.name)
 
     # ------------------------------------------------------------------ rewrite rules
-    def r1(self, keep_derive=('Clone', 'Copy', 'Default', 'PartialEq', 'Eq'), structural=True):
-        """Attributes and doc comments dropped; derive lists reduced; non-Copy derived Clone removed."""
+    def r1(self, keep_derive=('Clone', 'Copy', 'Default', 'PartialEq', 'Eq'), structural=True, plain=False):
+        """Attributes and doc comments dropped; derive lists reduced; non-Copy derived Clone removed.
+        plain=True (items compiled by rustc / Kani, not Verus): the std derives are all kept as written."""
+        if plain:
+            keep_derive = ('Clone', 'Copy', 'Debug', 'Default', 'PartialEq', 'Eq', 'Hash', 'PartialOrd', 'Ord')
+            structural = False
         self._no_splice_yet()
         out = []
         lines = self.text.split('\n')
@@ -415,7 +419,7 @@ class Item:
                 if m:
                     ds = [d.strip() for d in m.group(1).split(',') if d.strip()]
                     ds2 = [d for d in ds if d in keep_derive]
-                    if 'Copy' not in ds2 and 'Clone' in ds2:
+                    if 'Copy' not in ds2 and 'Clone' in ds2 and not plain:
                         ds2.remove('Clone')
                     if structural and 'PartialEq' in ds2 and 'Eq' in ds2:
                         ds2.append('Structural')
@@ -737,8 +741,9 @@ class Item:
 
     def r26_let_chains(self):
         """`if A && let P = E && B { X }` (no `else`, not itself an `else if`) -> `if A { if let P = E { if B { X } } }`.
-        Verus does not take let chains; the nesting is what the chain means when there is no else branch.  Chains with an else branch
-        are left alone (the run then stops at Verus' "not supported")."""
+        Verus does not take let chains; the nesting is what the chain means when there is no else branch.  A chain with a plain
+        `else { Y }` is nested with Y repeated at each link (R26b); `else if` chains are left alone (the run then stops at Verus' "not
+        supported")."""
         self._no_splice_yet()
         t, pos, n = self.text, 0, 0
         while True:
@@ -778,6 +783,19 @@ class Item:
             e = match_brace(t, j)
             after = t[e:e + 40].lstrip()
             if after.startswith('else'):
+                # R26b: a chain with a plain `else { Y }`: `if A && let P = E { X } else { Y }` -> `if A { if let P = E { X } else { Y } } else { Y }`
+                # (Y is reached exactly when some link fails, whichever it is; the links are evaluated in the same order)
+                m_else = re.match(r'\s*else\s*(?=\{)', t[e:])
+                if not m_else:
+                    continue        # `else if ..`: left alone
+                yb = e + m_else.end()
+                ye = match_brace(t, yb)
+                y = t[yb:ye]
+                nested = ''.join('if %s { ' % p for p in parts[:-1]) + 'if %s ' % parts[-1] + t[j:e] + ' else ' + y + (' } else ' + y) * (len(parts) - 1)
+                t = t[:m.start()] + nested + t[ye:]
+                pos = m.start() + 3
+                n_else = getattr(self, '_n26b', 0) + 1
+                self._n26b = n_else
                 continue
             block = t[j:e]
             nested = ''.join('if %s { ' % p for p in parts[:-1]) + 'if %s ' % parts[-1] + block + ' }' * (len(parts) - 1)
@@ -787,6 +805,10 @@ class Item:
         if n:
             self.text = t
             self._log('R26', '%d let chain(s) without an else branch nested' % n)
+        if getattr(self, '_n26b', 0):
+            self.text = t
+            self._log('R26b', '%d let chain(s) with a plain else branch nested, the else block repeated at each link' % self._n26b)
+            self._n26b = 0
         # R27: a one-element slice pattern on a Vec -> length test and index (Verus takes no slice patterns)
         t2, k = re.subn(r'\bif let \[(\w+)\] = (\w+(?:\.\w+)*)\.as_slice\(\) \{', r'if \2.len() == 1 { let \1 = &\2[0];', self.text)
         if k:
